@@ -120,10 +120,12 @@ impl<'a> PrettyPrinter<'a> {
                 }
                 LookAhead::Body => {
                     if let Some(expr) = child.cast() {
+                        // Inside braces a line break ends the statement, so a body that holds a line
+                        // comment outside any delimiters of its own can only be wrapped in parentheses.
                         let use_braces = if let Expr::Binary(binary) = expr {
                             !is_chainable_binary(binary)
                         } else {
-                            true
+                            !has_undelimited_line_comment(expr.to_untyped())
                         };
                         return FlowItem::spaced(
                             self.convert_expr_with_optional_paren(ctx, expr, use_braces),
@@ -342,6 +344,23 @@ impl<'a> PrettyPrinter<'a> {
             }
         })
     }
+}
+
+/// Whether the node holds a line comment that is not enclosed in delimiters inside the node.
+fn has_undelimited_line_comment(node: &SyntaxNode) -> bool {
+    node.children().any(|child| match child.kind() {
+        SyntaxKind::LineComment => true,
+        SyntaxKind::Args
+        | SyntaxKind::Array
+        | SyntaxKind::Dict
+        | SyntaxKind::Parenthesized
+        | SyntaxKind::Params
+        | SyntaxKind::Destructuring
+        | SyntaxKind::CodeBlock
+        | SyntaxKind::ContentBlock
+        | SyntaxKind::Equation => false,
+        _ => has_undelimited_line_comment(child),
+    })
 }
 
 /// Returns whether a binary expression is chainable.
